@@ -593,6 +593,11 @@ def run(pid, tier, seed, rundir, model_run):
         many.append(("bisync",))
     many.append(("bisync",))
     corpus.append(many)
+    # (seed C02-P) a draft replaced by the final version: in ONE run the only recorded file of a sub-directory is deleted on B and a new
+    # file appears in that same directory on B — a run that tidies directories "emptied by its deletes" must not take the new file along
+    corpus.append([("both", "docs/draft.txt", b"one\n", b"one\n"), ("both", "docs/old/x", b"3", b"3"), ("bisync",), ("delete", "B", "docs/draft.txt"), ("delete", "B", "docs/old/x"),
+                   ("write", "B", "docs/final.txt", b"two two\n"), ("write", "B", "docs/old/y", b"ONE\n"), ("bisync",), ("bisync",)])
+    corpus.append([("both", "d/e/s", b"one\n", b"one\n"), ("bisync",), ("delete", "A", "d/e/s"), ("write", "A", "d/e/s2", b"3"), ("write", "B", "p", b"3"), ("bisync",), ("bisync",)])
     histories = [(h, "corpus") for h in corpus] + [(None, "random") for _ in range(n_hist)]
     for hi, (hops, hkind) in enumerate(histories):
         length = rng.range(2, 12)
